@@ -172,8 +172,12 @@ def main():
         lines.append(f'VIOLATION property={a.prop} replay={path}' + ('' if reproduced else ' no-failing-input-found'))
     wall = time.time() - t0
     level = spec['level']
-    n_obl = len(all_obls)
-    n_dis = sum(1 for o in all_obls if o['verdict'] == 'discharged')
+    # bounded stand-ins are never counted as proved: they are reported apart (coverage.bounded_checks)
+    bounded_obls = [o for o in all_obls if o['kind'] == 'bounded']
+    proof_obls = [o for o in all_obls if o['kind'] != 'bounded']
+    n_obl = len(proof_obls)
+    n_dis = sum(1 for o in proof_obls if o['verdict'] == 'discharged')
+    known_bounded = sum(1 for o, f in known if o['kind'] == 'bounded')
     exit_code = 0
     if new:
         exit_code = 1
@@ -181,7 +185,7 @@ def main():
         exit_code = 3
     elif undecided:
         exit_code = 2
-    if n_obl == 0 and exit_code == 0:
+    if n_obl == 0 and not bounded_obls and exit_code == 0:
         errors.append(('-', None, 'zero obligations generated'))
         exit_code = 3
     backends = {}
@@ -229,7 +233,10 @@ def main():
             exit_code = 3
     coverage = {
         # obligations claimed = all obligations generated minus the ones recorded as known findings (listed below)
-        'obligations': n_obl - len(known), 'discharged': n_dis,
+        'obligations': n_obl - (len(known) - known_bounded), 'discharged': n_dis,
+        'bounded_checks': {'count': len(bounded_obls), 'passed': sum(1 for o in bounded_obls if o['verdict'] == 'discharged'),
+                           'note': 'bounded stand-ins (exhaustive small scope / generated inputs on the real code): NOT counted in obligations/discharged',
+                           'names': [o['name'] for o in bounded_obls][:40]},
         'obligations_generated': n_obl,
         'second_opinion_cvc5': second if tier == 'thorough' else None,
         'mutation_selftest': selftest,
